@@ -14,6 +14,9 @@ pub const NSHARDS: usize = 3;
 thread_local! {
     /// size of the planted values A and B (C03 varies it)
     pub static PLANTED_SIZE: std::cell::Cell<Size> = const { std::cell::Cell::new(Size::Five) };
+    /// plant the copies with timestamps one day in the future of the (virtual) clock: another host's
+    /// clock is ahead (C15 varies it)
+    pub static FUTURE_DATED: std::cell::Cell<bool> = const { std::cell::Cell::new(false) };
     /// make the operation's trigger event fire (C03 varies it)
     pub static FORCE_MAINTENANCE: std::cell::Cell<bool> = const { std::cell::Cell::new(false) };
     /// an fsx controller to install for the duration of the operation
@@ -226,7 +229,11 @@ pub fn run_cell(cell: &Cell) -> CellRun {
     let sc = Scratch::new();
     let nread = cell.readers.len();
     let dirs = Dirs::under(&sc.root, nread);
-    let old = run::base_time_ns() as i128 - 86_400_000_000_000;
+    let old = if FUTURE_DATED.with(|f| f.get()) {
+        run::base_time_ns() as i128 + 86_400_000_000_000
+    } else {
+        run::base_time_ns() as i128 - 86_400_000_000_000
+    };
     let mut level_dirs = Vec::new();
     if cell.writer.is_some() {
         level_dirs.push(dirs.write.clone());
